@@ -193,10 +193,14 @@ class Ctx:
             futs = [ex.submit(lambda j=j: self.tlc(**j)) for j in jobs]
             return [f.result() for f in futs]
 
-    def validate_traces(self, module, base, nshards, constants, what, timeout=3000, workers=2):
+    def validate_traces(self, module, base, nshards, constants, what, timeout=3000, workers=2,
+                        head="INIT Init\nNEXT Next\nINVARIANT Accepted\n", verdict_re=r'verdict = "([^"]*)"',
+                        states_of=None, parallel=None):
         """Direction B: run <module> over every shard <base>.<k> (each trace its own initial state,
         tlc -continue). Every rejected trace becomes a candidate whose replay record is the matching
-        line of <base>.replay.<k>. Returns the number of traces accepted."""
+        line of <base>.replay.<k>. states_of(trace_dict) = number of distinct states a fully consumed
+        trace contributes (integrity check: a mismatch is infrastructure trouble, not a verdict).
+        Returns the number of traces accepted."""
         jobs = []
         shards = []
         for k in range(nshards):
@@ -206,23 +210,29 @@ class Ctx:
             local = os.path.basename(f)
             if os.path.dirname(os.path.abspath(f)) != os.path.abspath(self.specdir):
                 shutil.copy(f, os.path.join(self.specdir, local))
-            cfg = "INIT Init\nNEXT Next\nINVARIANT Accepted\nCHECK_DEADLOCK FALSE\nCONSTANTS\n  File = \"%s\"\n%s" % (
-                local, "".join("  %s = %s\n" % kv for kv in constants.items()))
+            cfg = "%sCHECK_DEADLOCK FALSE\nCONSTANTS\n  File = \"%s\"\n%s" % (
+                head, local, "".join("  %s = %s\n" % kv for kv in constants.items()))
             jobs.append(dict(module=module, cfg_text=cfg, name="%s_%s_%d" % (module, os.path.basename(base).split(".")[0], k),
                              workers=workers, timeout=timeout, cont=True, expect_clean=False))
             shards.append(k)
-        results = self.tlc_many(jobs, parallel=max(1, NCPU // workers))
+        results = self.tlc_many(jobs, parallel=parallel or max(1, NCPU // workers))
         accepted = 0
         for k, r in zip(shards, results):
-            ntr = sum(1 for _ in open("%s.%d" % (base, k)))
+            ntr = 0
+            expect = 0
+            with open("%s.%d" % (base, k)) as fh:
+                for ln in fh:
+                    ntr += 1
+                    expect += states_of(json.loads(ln)) if states_of else 2
             rejected = {}
             for v in r["violations"]:
                 m = re.search(r"tid = (\d+)", v["text"])
-                m2 = re.findall(r'verdict = "([^"]*)"', v["text"])
+                m2 = re.findall(verdict_re, v["text"])
                 if m:
-                    rejected[int(m.group(1))] = m2[-1] if m2 else "?"
-            if r["distinct"] != 2 * ntr:
-                raise Infra("trace validation %s: %d traces but %d distinct states (expected %d)" % (r["name"], ntr, r["distinct"], 2 * ntr))
+                    rejected[int(m.group(1))] = (m2[-1] if m2 else "?")
+            if r["distinct"] != expect:
+                raise Infra("trace validation %s: %d traces, %d distinct states, expected %d (a trace was not consumed to its end)"
+                            % (r["name"], ntr, r["distinct"], expect))
             accepted += ntr - len(rejected)
             if rejected:
                 lines = open("%s.replay.%d" % (base, k)).read().splitlines()
@@ -255,13 +265,28 @@ class Ctx:
     def add_candidate(self, sig, record, what=""):
         self.candidates.append({"sig": sig, "record": record, "what": what})
 
-    def finish(self, level="model_checking", confirm=None, coverage_extra=None):
+    def finish(self, level="model_checking", confirm=None, coverage_extra=None, confirm_batch=None):
         """Confirm candidates, match known findings, write evidence, exit."""
         known = load_known()
         vdir = os.path.join(VERIF, "violations", self.prop)
         confirmed = []
         unreproduced = 0
         seen = set()
+        if confirm_batch is not None and self.candidates:
+            uniq = []
+            for c in self.candidates:
+                key = json.dumps(c["sig"], sort_keys=True)
+                if key not in seen:
+                    seen.add(key)
+                    uniq.append(c)
+            uniq = uniq[:400]
+            oks = confirm_batch(uniq)
+            for c, ok in zip(uniq, oks):
+                if ok:
+                    confirmed.append(c)
+                else:
+                    unreproduced += 1
+            self.candidates = []
         for c in self.candidates:
             key = json.dumps(c["sig"], sort_keys=True)
             if key in seen:
